@@ -1,6 +1,8 @@
 //! vcheck: runs the check of one property (default revm feature set).
 mod common;
+mod ops;
 mod pure;
+mod structs;
 
 use vcore::Ctx;
 
@@ -23,6 +25,11 @@ fn main() {
         std::process::exit(2);
     });
     match id.as_str() {
+        "C03" => ops::c03(&mut ctx),
+        "C04" => ops::c04(&mut ctx),
+        "C05" => ops::c05_opcodes(&mut ctx),
+        "C11" => structs::c11a(&mut ctx),
+        "C12" => structs::c12(&mut ctx),
         "C13" => pure::c13(&mut ctx),
         "C14" => pure::c14(&mut ctx),
         "C27" => pure::c27(&mut ctx),
